@@ -807,8 +807,6 @@ impl Overlay {
         #[cfg(feature = "verif")]
         crate::verif::sched_point("overlay_commit");
 
-        let marker = self.mark_committed();
-
         {
             let mut shared = nomt.shared.lock();
             if shared.root != self.prev_root() {
@@ -818,6 +816,9 @@ impl Overlay {
                     shared.root
                 );
             }
+            // Only an accepted overlay may be marked as committed: descendants of a rejected
+            // overlay must not be usable without it.
+            let marker = self.mark_committed();
             shared.root = root;
             shared.last_commit_marker = Some(marker);
         }
@@ -865,8 +866,6 @@ impl Overlay {
             return Ok(Some(self));
         }
 
-        let marker = self.mark_committed();
-
         {
             let mut shared = nomt.shared.lock();
             if shared.root != self.prev_root() {
@@ -876,6 +875,9 @@ impl Overlay {
                     shared.root
                 );
             }
+            // Only an accepted overlay may be marked as committed: descendants of a rejected
+            // overlay must not be usable without it.
+            let marker = self.mark_committed();
             shared.root = root;
             shared.last_commit_marker = Some(marker);
         }
